@@ -4,13 +4,13 @@ import time
 from concurrent.futures import ThreadPoolExecutor
 
 from common import (NCPU, REPLAYS, HarnessError, bisect_crash, cargo_build, extract_block, log, miri_cmd, parse_stats,
-                    repo_state, run_capture, save_replay, write_evidence, ENV)
+                    repo_state, run_capture, run_engine_miri, run_engine_native, save_replay, write_evidence, ENV)
 
 PROP = "C12"
 
 BUDGET = {
-    "quick": {"enum": "quick", "sampled": 2_000_000, "miri_shapes": 64, "miri_procs": 4},
-    "thorough": {"enum": "thorough", "sampled": 300_000_000, "miri_shapes": 3000, "miri_procs": 16},
+    "quick": {"enum": "quick", "sampled": 2_000_000, "miri_shapes": 128, "miri_procs": 8, "w2": 500_000, "w2_miri": 32},
+    "thorough": {"enum": "thorough", "sampled": 300_000_000, "miri_shapes": 3000, "miri_procs": 16, "w2": 50_000_000, "w2_miri": 600},
 }
 
 
@@ -117,6 +117,23 @@ def check(tier, seed):
                 miri_total += stats["runs"]
         log("[C12] miri: %d shape-distinct traces, %d violations (%.1fs)" % (miri_total, len(violations), time.time() - t1))
 
+    # ---- phase 4: write-out methods through the macro-generated extern "C" wrappers (I8: flush exactly
+    # once, after the body, on both Result arms; content exact; sticky failure) — own-sim's L2 executor in C12 mode
+    if not violations:
+        t1 = time.time()
+        own_bin = os.path.join(cargo_build(["own-sim"]), "own-sim")
+        stats, viols = run_engine_native(own_bin, ["w2"], seed, b["w2"], PROP, "write-l2")
+        if stats:
+            stats.setdefault("enum_complete_fault_sequences", 0)
+            absorb("macro-write-methods-native", {**stats, "counters": {("l2_" + k): v for k, v in stats["counters"].items()}}, time.time() - t1)
+        violations += viols
+        if not violations:
+            sts, viols = run_engine_miri("own-sim", ["w2"], seed, b["w2_miri"], min(b["miri_procs"], 8), PROP, "write-l2")
+            for i, st in enumerate(sts):
+                absorb("macro-write-methods-miri-%d" % i, {**st, "counters": {("l2_" + k): v for k, v in st["counters"].items()}}, 0)
+            violations += viols
+        log("[C12] macro write methods: %d violations (%.1fs)" % (len(viols), time.time() - t1))
+
     wall = time.time() - t0
     fault_counts = {k: v for k, v in counters.items() if k.startswith("fault_")}
     probes = {k: v for k, v in counters.items() if k.startswith("probe_")}
@@ -133,13 +150,14 @@ def check(tier, seed):
         "exhaustive": False,
         "enumeration_exhaustive_within_bounds": enum_exhaustive,
         "phases": phases,
-        "fault_kinds_fired": fault_counts,
+        "fault_kinds_fired": {**fault_counts, **{k: v for k, v in counters.items() if k.startswith("l2_fault_")}},
         "reach_probes": probes,
         "other_counters": {k: v for k, v in counters.items() if not k.startswith("fault_") and not k.startswith("probe_")},
         "logical_steps_simulated": counters.get("ops", 0),
         "runs_per_hour": int(totals["evaluations"] / max(wall, 1e-9) * 3600),
         "components": {
-            "real": ["runtime/src/write.rs: impl fmt::Write for DiplomatWrite, DiplomatWrite::flush, diplomat_simple_write, diplomat_buffer_write_create/get_bytes/len/destroy (compiled from the tree under test)"],
+            "real": ["runtime/src/write.rs: impl fmt::Write for DiplomatWrite, DiplomatWrite::flush, diplomat_simple_write, diplomat_buffer_write_create/get_bytes/len/destroy (compiled from the tree under test)",
+                     "macro/src/lib.rs: flush emission in the extern \"C\" wrappers of &mut DiplomatWrite methods (vbridge describe/describe_n/try_describe, real proc macro)"],
             "stub": ["the buffer owner (grow/flush callbacks, allocation, relocation) — played by the simulator from the trace"],
             "executed_under": ["native release build with debug assertions, 16-byte canaries, 0xA5 never-written filler behind cap, poisoned graveyard of released buffers", "Miri (exact-size allocations, freed-on-relocate buffers)"],
         },
@@ -149,7 +167,7 @@ def check(tier, seed):
         "the simulated owner is honest: grow() either returns false and changes nothing or provides at least the requested capacity and preserves [0,len)",
         "the accessors are also applied to caller-supplied writers (they only read fields) because a Rust-owned writer cannot fail to grow without aborting the process",
         "allocation failure inside the Rust-owned writer aborts the process and is not simulated",
-        "the C++ WriteFromString owner and the macro's flush emission are exercised by the C03 C++/L2 drivers, not here" ,
+        "the C++ WriteFromString owner is exercised by the C++ driver phase when present",
     ]
     write_evidence(PROP, tier, seed, "fault_enumeration", cov, assumptions, wall, len(violations))
     for v in violations:
@@ -158,6 +176,9 @@ def check(tier, seed):
 
 
 def replay(path):
+    if "(write-l2)" in open(path).read().split("\n", 1)[0]:
+        import c03
+        return c03.replay(path)
     bindir = cargo_build(["write-sim"])
     rc, out, err = run_capture([os.path.join(bindir, "write-sim"), "replay", path])
     print(out, end="")
